@@ -57,9 +57,26 @@ Clause of the property -> oracle (one `Bounded` per routine family and clause; a
        REQUESTED descriptor, taken from that descriptor's values; the fold generators were asked for the requested k / n and
        descriptors on the current resample.
 
+Dimension sweeps (every routine family; own input classes, see SWEEP_KW / SHAPES; all clauses of the family apply to them)
+* the FORM of the input does not matter to a statement about values, labels and resamples: dissimilarities of data and model
+  RDMs stored as int64 / int32 / int16 / uint8 (integer-valued, tied) or float32 give the result of the same values as float64
+  (float32: to single precision); data / predictions in units of 1e-26 .. 1e+12 (the three measures are invariant under
+  positive scaling; the spec runs on the scaled values); descriptors handed over as tuple / ndarray / int16 or fixed-width-str
+  ndarray; supplied theta as int64 / float32 arrays; one Model instead of a list.
+* groupings: interleaved groups with first-appearance order != numeric order != string order, a negative label, unbalanced
+  sizes; a single RDM (routines that do not resample RDMs) / a single RDM group (dof 0); 3 folds of 11 conditions and of
+  5 RDMs (remainder 2), n_cv = 3; thorough: 8 RDMs x 14 conditions.
+* call sequences, clause `reproducible`: (every case) the caller's data, descriptors, model RDMs and theta keep their content
+  during the call, and the Result held by the caller is bit-identical after the routine was called again; (`seq` cases) the
+  same routine is called on OTHER content of the same shape, model names and labels BEFORE the observed run (which the spec
+  checks) and BETWEEN it and its rerun (which must still be bit-identical).
+
 NOT covered by this tier
-* inputs outside the bounded domains (<= 6 RDMs, <= 10 conditions, N <= 12 resamples, <= 4 models); comparison methods other
+* inputs outside the bounded domains (<= 8 RDMs, <= 14 conditions, N <= 12 resamples, <= 4 models); comparison methods other
   than cosine / corr / rho-a (whitened, Kendall, Bures, Riemann); data with missing entries; sigma_k.
+* vector-valued (2-D) descriptors and float-valued labels as bootstrap / fold groups (np.unique flattens them; the property does
+  not say what a group is then); resampling the RDMs of a single RDM (degenerate; the routines raise ZeroDivisionError from the
+  n/(n-1) factor of Result's derived variances).
 * that the numerically optimising default fitters (`fit_optimize`, `fit_interpolate`) return the optimum (C08) -- their
   return value is observed and used; that the fold generators partition correctly (C05) and that a sample object holds the
   drawn rows (C09) -- only their consequences for the stored numbers are seen here.
@@ -81,6 +98,14 @@ Known findings of the unchanged tree (details, reproductions and suggested repai
 * `crossval`, input_class `fold-lt3-distinct` (clauses evaluations, noise-ceiling, fitter-view): a test fold with >= 3
   conditions counting multiplicity but only 2 distinct ones is evaluated (cosine 1.0, rho-a 0.0, corr raises) instead of NaN;
   the same through `eval_dual_bootstrap_random(n_pattern=2)`, input_class `test-sets-lt3-conditions`.
+
+Pending triage (found by the dimension sweeps; registrations behind `if False:  # pending triage: <class>`)
+* `narrow-int,cosine-pooling` (clause noise-ceiling; all families): `pool_rdm(method='cosine')` squares the dissimilarities in their
+  own dtype: uint8 wraps modulo 256 (silently wrong cosine noise ceilings), int16 overflows to a negative mean square (NaN pooled
+  RDM -> `ValueError: rdm1 and rdm2 have different nan positions`), wherever typed data are pooled without having passed through
+  `subsample_pattern` (which makes them float).
+* `single-rdm,pattern-bootstrap` (`eval_dual_bootstrap_random(boot_type='pattern')` on one RDM; reported under evaluations, no
+  Result): the routine passes n_rdm=data.n_rdm to `Result` whatever is resampled; `_correct_1d` divides by n_rdm - 1 = 0.
 """
 import contextlib
 import inspect
@@ -1229,10 +1254,11 @@ def _case(shape, models, method, seed, **kw):
     return c
 
 
-def _run_family(run, family, domain, cases, bds, histories=1):
+def _run_family(run, family, domain, cases, bds, histories=1, once=()):
     if histories > 1:       # the same inputs under further seeds of numpy's global generator (other draw sequences)
         cases = [(dict(c, np_seed=c['np_seed'] + 7919 * h), ic) for c, ic in cases for h in range(histories)]
         domain += '; %d random histories per input' % histories
+    cases = list(cases) + list(once)        # the dimension sweeps: one history each
     these = {}
     for clause, orc, ob in CLAUSES:
         if clause in APPLICABLE[family]:
@@ -1328,6 +1354,7 @@ def tier_c(run, thorough):
     bds = []
     seeds = range(3) if thorough else range(1)
     H = 3 if thorough else 1
+    sw_seeds = range(2) if thorough else range(1)       # data seeds of the dimension sweeps
     meth = lambda k: METHODS[k % 3]                                                   # noqa: E731
 
     # ---- eval_fixed ----
@@ -1338,19 +1365,20 @@ def tier_c(run, thorough):
                 for method in (METHODS if thorough else (meth(k + q),)):
                     cases.append((_case(shape, ms, method, seed, routine='eval_fixed', theta_none=(ms == 'fixed2')),
                                   'one-rdm' if shape == 'one-rdm' else shape))
+    sw = []
     def mk_fixed(i, method, seed, **kw):
         bare = bool(kw.get('bare_model'))
         return _case(('grouped-both', 'identity', 'string-groups')[i % 3], 'fixed1' if bare else 'all4', method, seed,
                      routine='eval_fixed', theta_none=bare, **kw)
-    _sweeps(cases, thorough, seeds, mk_fixed, THETA_KW)
-    for seed in seeds:
+    _sweeps(sw, thorough, sw_seeds, mk_fixed, THETA_KW)
+    for seed in sw_seeds:
         for k, shape in enumerate(('interleaved-conditions', 'interleaved-both', 'one-rdm-group') + (('big',) if thorough else ())):
             for q, ms in enumerate(('fixed2', 'all4')):
                 for method in (METHODS if thorough else (meth(k + q + 1),)):
-                    cases.append((_case(shape, ms, method, seed, routine='eval_fixed', theta_none=(ms == 'fixed2')), shape))
+                    sw.append((_case(shape, ms, method, seed, routine='eval_fixed', theta_none=(ms == 'fixed2')), shape))
     _run_family(run, 'eval_fixed', 'eval_fixed; 1..5 RDMs x 4..7 conditions, 2 fixed models (theta=None) / fixed+weighted+select+'
                 'interpolate models at supplied parameters; methods cosine, corr, rho-a; %d data seeds' % len(seeds) + SWEEP_NOTE,
-                cases, bds, H)
+                cases, bds, H, once=sw)
 
     # ---- the three plain bootstraps ----
     cases = []
@@ -1367,30 +1395,33 @@ def tier_c(run, thorough):
                                                 theta_none=(ms != 'all4')), shape))
     BOOT3 = ('eval_bootstrap', 'eval_bootstrap_pattern', 'eval_bootstrap_rdm')
 
+    sw = []
     def mk_boot(i, method, seed, **kw):
         bare = bool(kw.get('bare_model'))
         return _case(('grouped-both', 'grouped-conditions', 'string-groups', 'grouped-rdms')[i % 4], 'fixed1' if bare else 'all4', method, seed,
                      routine=BOOT3[i % 3], N=N, boot_noise_ceil=bool((i // 3) % 2), theta_none=bare, **kw)
-    _sweeps(cases, thorough, seeds, mk_boot, THETA_KW)
-    for seed in seeds:      # the call sequence for each of the three routines (any state kept between calls is per routine)
+    _sweeps(sw, thorough, sw_seeds, mk_boot, THETA_KW)
+    for seed in sw_seeds:      # the call sequence for each of the three routines (any state kept between calls is per routine)
         for r in range(3):
             for method in (METHODS if thorough else (meth(r + seed),)):
-                cases.append((mk_boot(7 * r + 3 * seed, method, seed, seq=True), 'call-sequence'))
-    for seed in seeds:
+                sw.append((mk_boot(7 * r + 3 * seed, method, seed, seq=True), 'call-sequence'))
+    for seed in sw_seeds:
         k = 0
-        for shape in ('interleaved-conditions', 'interleaved-both', 'one-rdm-group', 'one-rdm') + (('big',) if thorough else ()):
+        for n_sh, shape in enumerate(('interleaved-conditions', 'interleaved-both', 'one-rdm-group', 'one-rdm') + (('big',) if thorough else ())):
             for r, fn in enumerate(BOOT3):
+                if shape == 'one-rdm' and fn != 'eval_bootstrap_pattern':
+                    continue        # resampling the RDMs of a single RDM is degenerate (the routines raise ZeroDivisionError)
                 for b, bnc in enumerate((True, False)):
                     k += 1
-                    if not thorough and b != (k // 2) % 2:
+                    if not thorough and shape != 'one-rdm' and b != (n_sh + r + seed) % 2:
                         continue
                     for method in (METHODS if thorough else (meth(k + seed),)):
-                        cases.append((_case(shape, 'all4' if k % 2 else 'fixed2', method, seed, routine=fn, N=N, boot_noise_ceil=bnc,
+                        sw.append((_case(shape, 'all4' if k % 2 else 'fixed2', method, seed, routine=fn, N=N, boot_noise_ceil=bnc,
                                             theta_none=not k % 2), shape))
     _run_family(run, 'eval_bootstrap_all3', 'eval_bootstrap, eval_bootstrap_pattern, eval_bootstrap_rdm; N=%d; 2..5 RDMs x 4..7 '
                 'conditions, identity and repeated-value (int / str) descriptors on either factor; 1-2 fixed models (theta=None) / '
                 '4 model classes at supplied parameters; boot_noise_ceil True/False; methods cosine, corr, rho-a; %d data seeds'
-                % (N, len(seeds)) + SWEEP_NOTE, cases, bds, H)
+                % (N, len(seeds)) + SWEEP_NOTE, cases, bds, H, once=sw)
 
     # ---- crossval ----
     cases = []
@@ -1420,13 +1451,14 @@ def tier_c(run, thorough):
                             fitter='none', ceil='none'), 'conditions-folds'))
     CVFIT = (('none', 'sel-int'), ('callable', 'all4'), ('list', 'flex3'), ('none', 'sel2'))
 
+    sw = []
     def mk_cv(i, method, seed, **kw):
         shape, kind = ('cv-grouped', 'cv-identity')[i % 2], ('conditions', 'rdms', 'both', 'resampled')[(i // 2) % 4]
         fitter, ms = CVFIT[i % 4]
         return _case(shape, ms, method, seed, routine='crossval', folds=_cv_folds(shape, kind), fitter=fitter,
                      ceil='given' if (i % 3 == 0 and kind != 'resampled') else 'none', **kw)
-    _sweeps(cases, thorough, seeds, mk_cv)
-    for seed in seeds:
+    _sweeps(sw, thorough, sw_seeds, mk_cv)
+    for seed in sw_seeds:
         k = 0
         for shape, kinds in (('cv-interleaved', ('conditions', 'rdms', 'both', 'resampled', 'too-small')), ('cv-11', ('conditions', 'both')),
                              ('cv-one-rdm', ('conditions',))):
@@ -1437,12 +1469,12 @@ def tier_c(run, thorough):
                         continue
                     ceil = 'given' if (k % 4 == 0 and kind not in ('resampled', 'too-small')) else 'none'
                     for method in (METHODS if thorough else (meth(k // 2 + seed),)):
-                        cases.append((_case(shape, ms, method, seed, routine='crossval', folds=_cv_folds(shape, kind), fitter=fitter,
+                        sw.append((_case(shape, ms, method, seed, routine='crossval', folds=_cv_folds(shape, kind), fitter=fitter,
                                             ceil=ceil), f'{shape},{kind}-folds'))
     _run_family(run, 'crossval', 'crossval on hand-made folds (condition folds, leave-one-RDM-out, both, folds of a resample with '
                 'repeated RDMs / condition labels, folds too small to evaluate) of 4x9 and 6x10 (grouped) data; fitter None '
                 '(fit_select, fit_interpolate, fit_optimize, fit_mock) / one callable / list mixing callables and None; ceil_set None / given; '
-                'methods cosine, corr, rho-a; %d data seeds' % len(seeds) + SWEEP_NOTE, cases, bds, H)
+                'methods cosine, corr, rho-a; %d data seeds' % len(seeds) + SWEEP_NOTE, cases, bds, H, once=sw)
 
     # ---- bootstrap_crossval ----
     cases = []
@@ -1469,14 +1501,15 @@ def tier_c(run, thorough):
                             k_rdm=2, N=3, n_cv=2, use_correction=True, fitter='none'), 'default-fitters'))
     BCFIT = (('none', 'sel2'), ('callable', 'all4'), ('list', 'flex3'))
 
+    sw = []
     def mk_bootcv(i, method, seed, **kw):
         shape, kp, kr = (('cv-identity', 2, 1), ('cv-identity', 1, 2), ('cv-grouped', 2, 2), ('cv-grouped', 1, 1))[i % 4]
         fitter, ms = BCFIT[i % 3]
         n_cv, corr = ((2, True), (2, True), (1, False), (2, False), (3, True))[i % 5]
         return _case(shape, ms, method, seed, routine='bootstrap_crossval', boot_type=('both', 'pattern', 'rdm')[(i // 4) % 3],
                      k_pattern=kp, k_rdm=kr, N=N, n_cv=n_cv, use_correction=corr, fitter=fitter, **kw)
-    _sweeps(cases, thorough, seeds, mk_bootcv, quick_half=0)
-    for seed in seeds:
+    _sweeps(sw, thorough, sw_seeds, mk_bootcv, quick_half=0)
+    for seed in sw_seeds:
         k = 0
         for shape, kp, kr, bt in (('cv-interleaved', 2, 2, 'both'), ('cv-interleaved', 2, 1, 'pattern'), ('cv-interleaved', 1, 2, 'rdm'),
                                   ('cv-11', 3, 1, 'rdm'), ('cv-11', 1, 3, 'pattern'), ('cv-11', 3, 3, 'rdm'), ('cv-11', 3, 1, 'pattern'),
@@ -1489,11 +1522,11 @@ def tier_c(run, thorough):
                     continue
                 n_cv, corr = (2, True) if k % 4 else (3, True)
                 for method in (METHODS if thorough else (meth(k),)):
-                    cases.append((_case(shape, ms, method, seed, routine='bootstrap_crossval', boot_type=bt, k_pattern=kp, k_rdm=kr,
+                    sw.append((_case(shape, ms, method, seed, routine='bootstrap_crossval', boot_type=bt, k_pattern=kp, k_rdm=kr,
                                         N=N, n_cv=n_cv, use_correction=corr, fitter=fitter), f'{shape},k={kp}x{kr},boot_type={bt}'))
     _run_family(run, 'bootstrap_crossval', 'bootstrap_crossval boot_type both/pattern/rdm; N=%d; k_pattern, k_rdm in {1,2} and defaults; '
                 'n_cv 1/2 with and without correction; 4x9, 6x10 (grouped), 5x7 (grouped) data; fitter None / callable / list; '
-                'methods cosine, corr, rho-a; %d data seeds' % (N, len(seeds)) + SWEEP_NOTE + '; k in {1,2,3}, n_cv 3', cases, bds, H)
+                'methods cosine, corr, rho-a; %d data seeds' % (N, len(seeds)) + SWEEP_NOTE + '; k in {1,2,3}, n_cv 3', cases, bds, H, once=sw)
 
     # ---- eval_dual_bootstrap ----
     cases = []
@@ -1508,13 +1541,14 @@ def tier_c(run, thorough):
                 n_cv, corr = (2, True) if k % 3 else (2, False)
                 cases.append((_case(shape, ms, meth(k), seed, routine='eval_dual_bootstrap', k_pattern=kp, k_rdm=kr, N=N + (2 if kp == 1 else 0),
                                     n_cv=n_cv, use_correction=corr, fitter=fitter), f'{shape},k={kp}x{kr}'))
+    sw = []
     def mk_dual(i, method, seed, **kw):
         shape, kp, kr = (('grouped-both', 1, 1), ('cv-identity', 2, 1), ('cv-grouped', 1, 2), ('cv-grouped', 2, 2))[i % 4]
         fitter, ms = BCFIT[i % 3]
         return _case(shape, ms, method, seed, routine='eval_dual_bootstrap', k_pattern=kp, k_rdm=kr, N=N + (2 if kp == 1 else 0),
                      n_cv=2 + (i % 5 == 0), use_correction=bool(i % 3), fitter=fitter, **kw)
-    _sweeps(cases, thorough, seeds, mk_dual, quick_half=1)
-    for seed in seeds:
+    _sweeps(sw, thorough, sw_seeds, mk_dual, quick_half=1)
+    for seed in sw_seeds:
         k = 0
         for shape, kp, kr in (('interleaved-both', 1, 1), ('cv-interleaved', 2, 1), ('cv-interleaved', 1, 2), ('cv-11', 1, 3), ('cv-11', 3, 1),
                               ('one-rdm-group', 1, 1)) + ((('big', 2, 2),) if thorough else ()):
@@ -1523,12 +1557,12 @@ def tier_c(run, thorough):
                 if not thorough and ((k - 1) // 3 + seed) % 3 != q:      # quick: one fitter form per shape, rotating
                     continue
                 for method in (METHODS if thorough else (meth(k),)):
-                    cases.append((_case(shape, ms, method, seed, routine='eval_dual_bootstrap', k_pattern=kp, k_rdm=kr,
+                    sw.append((_case(shape, ms, method, seed, routine='eval_dual_bootstrap', k_pattern=kp, k_rdm=kr,
                                         N=N + (2 if kp == 1 else 0), n_cv=2, use_correction=bool(k % 2), fitter=fitter),
                                   f'{shape},k={kp}x{kr}'))
     _run_family(run, 'eval_dual_bootstrap', 'eval_dual_bootstrap; N=%d..%d; k_pattern, k_rdm in {1,2}; n_cv 2 with and without correction; '
                 '3x5, 5x7 (grouped), 4x9, 6x10 (grouped) data; fitter None / callable / list; methods cosine, corr, rho-a; %d data seeds'
-                % (N, N + 2, len(seeds)) + SWEEP_NOTE + '; k_rdm 3, n_cv 3', cases, bds, H)
+                % (N, N + 2, len(seeds)) + SWEEP_NOTE + '; k_rdm 3, n_cv 3', cases, bds, H, once=sw)
 
     # ---- eval_dual_bootstrap_random ----
     cases = []
@@ -1548,29 +1582,40 @@ def tier_c(run, thorough):
         # test sets of 2 condition units: nothing to evaluate, also when a unit was drawn twice (see C04_findings.md, F3)
         cases.append((_case('cv-identity', 'fixed2', 'cosine', seed, routine='eval_dual_bootstrap_random', boot_type='pattern',
                             test_pattern=2, test_rdm=0, N=N, n_cv=2, use_correction=True, fitter='none'), 'test-sets-lt3-conditions'))
+    sw = []
     def mk_dualrandom(i, method, seed, **kw):
         shape, npat, nr = (('cv-identity', 3, 1), ('cv-grouped', 3, 2), ('cv-grouped', 0, 1), ('cv-identity', 4, 0))[i % 4]
         fitter, ms = BCFIT[i % 3]
         n_cv, corr = ((2, True), (3, True), (2, False), (1, False), (2, True))[i % 5]
         return _case(shape, ms, method, seed, routine='eval_dual_bootstrap_random', boot_type=('both', 'pattern', 'rdm')[(i // 4) % 3],
                      test_pattern=npat, test_rdm=nr, N=N, n_cv=n_cv, use_correction=corr, fitter=fitter, **kw)
-    _sweeps(cases, thorough, seeds, mk_dualrandom, quick_half=1)
-    for seed in seeds:
+    _sweeps(sw, thorough, sw_seeds, mk_dualrandom, quick_half=1)
+    for seed in sw_seeds:
         k = 0
         for shape, npat, nr, bt in (('cv-interleaved', 3, 1, 'both'), ('cv-interleaved', 3, 0, 'pattern'), ('cv-interleaved', 0, 2, 'rdm'),
                                     ('cv-11', 4, 2, 'rdm'), ('cv-11', 5, 1, 'both'), ('cv-one-rdm', 3, 0, 'pattern')) + \
                 (((('big', 4, 2, 'both'),)) if thorough else ()):
             for q, (fitter, ms) in enumerate(BCFIT):
                 k += 1
+                if shape == 'cv-one-rdm':
+                    # eval_dual_bootstrap_random hands n_rdm=data.n_rdm to Result also when only conditions are resampled
+                    # (bootstrap_crossval passes None there): the n/(n-1) factor of the derived variances divides by zero for
+                    # a single RDM, the routine returns nothing
+                    if False:  # pending triage: single-rdm,pattern-bootstrap
+                        if thorough or q == seed % 3:
+                            sw.append((_case(shape, ms, meth(k), seed, routine='eval_dual_bootstrap_random', boot_type=bt,
+                                                test_pattern=npat, test_rdm=nr, N=N, n_cv=2, use_correction=True, fitter=fitter),
+                                          'single-rdm,pattern-bootstrap'))
+                    continue
                 if not thorough and ((k - 1) // 3 + seed) % 3 != q:      # quick: one fitter form per shape, rotating
                     continue
                 for method in (METHODS if thorough else (meth(k),)):
-                    cases.append((_case(shape, ms, method, seed, routine='eval_dual_bootstrap_random', boot_type=bt, test_pattern=npat,
+                    sw.append((_case(shape, ms, method, seed, routine='eval_dual_bootstrap_random', boot_type=bt, test_pattern=npat,
                                         test_rdm=nr, N=N, n_cv=2 + (k % 4 == 0), use_correction=True, fitter=fitter),
                                   f'{shape},test={npat}x{nr},boot_type={bt}'))
     _run_family(run, 'eval_dual_bootstrap_random', 'eval_dual_bootstrap_random boot_type both/pattern/rdm; N=%d; test sets of 0, 2, 3, 4 '
                 'condition units and 0..2 RDM units; n_cv 2 (corrected / not) / 3 / 1; 3x5, 5x7 (grouped), 4x9, 6x10 (grouped) data; fitter None / '
-                'callable / list; methods cosine, corr, rho-a; %d data seeds' % (N, len(seeds)) + SWEEP_NOTE + '; test sets of 5 units', cases, bds, H)
+                'callable / list; methods cosine, corr, rho-a; %d data seeds' % (N, len(seeds)) + SWEEP_NOTE + '; test sets of 5 units', cases, bds, H, once=sw)
     tier_c_cross_process(run, thorough, bds)
     return bds
 
